@@ -16,6 +16,8 @@ Ops
   "inverse"       "Xt": [[rat…]…]          → res = {"err":kind} | {"rows":[[val…]…]}, mem, eargs
   "dim_transform" "col": [val…]            → res = {"err":kind} | {"vals":[val…]} | {"mat":[[rat…]…]}
   "dim_inverse"   "c": {"vals":[val…]} | {"mat":[[rat…]…]} → res = {"err":kind} | {"vals":[val…]}, mem, eargs
+  "check"         "X", "T": [[rat…]…] tolerances, "Xt" (real transform), "Xr" (real round trip), "bounds": [[lo,hi]…]
+                                           → shape, bounds, roundtrip  (checkShape / checkBounds / checkRoundTrip)
   "old_identity_typed" "col": [val…]       → what `Identity(type_func).inverse_transform` returned before the fix
 -/
 
@@ -76,6 +78,18 @@ def handle (j : Json) : Except String Json := do
       return Json.mkObj [("ok", true), ("res", res), ("mem", ofBools mem),
         ("eargs", ofEArgs tE (eArgs L d c))]
     | _ => throw "dim_inverse needs exactly one dimension"
+  | "check" =>
+    -- verified checkers (C09_checker_*) on the REAL outputs of the implementation
+    let X ← jList (jList jVal) (← field j "X")
+    let T ← jList (jList jRat) (← field j "T")
+    let Xt ← jList (jList jRat) (← field j "Xt")
+    let Xr ← jList (jList jVal) (← field j "Xr")
+    let bounds ← jPairs (← field j "bounds")
+    let XT := List.zipWith (fun r t => List.zip r t) X T
+    return Json.mkObj [("ok", true),
+      ("shape", checkShape dims X.length Xt),
+      ("bounds", checkBounds bounds Xt),
+      ("roundtrip", checkRoundTrip dims XT Xr)]
   | "old_identity_typed" =>
     let col ← jList jVal (← field j "col")
     let res := match identityTypedInverseOld col with
